@@ -7,8 +7,12 @@ A case:  {"op": "test"|"estim"|"bet"|"conv", "init": {...}, "x": ["p/q", ...], "
 (int or None = np.inf), t, ro (random_order), kw (keyword attributes), u_now (a later `test.u = u`).
 """
 import math
+import sys
 from fractions import Fraction as F
 import numpy as np
+
+if hasattr(sys, "set_int_max_str_digits"):
+    sys.set_int_max_str_digits(0)        # exact products of 40 factors with 30-digit square roots exceed 4300 digits
 
 from ..core import fr, to_frac, num_close, nums_close, impl_call
 
@@ -16,7 +20,12 @@ NAME = "nm"
 RULE = ("configs drawn from test x estimator/bet x N in {n, n+1, 2n, 10n, inf} x u x t x documented parameter "
         "ranges; observations on a k/8*u grid (exact in binary) or random p/q with q<=64; streams: regular, "
         "boundary (x==t, all-zero, all-u, sum = N*t exactly, sum > N*t, null mean hitting 0 or u), malformed "
-        "(empty, longer than N, out of range, bad g, random_order=False with finite-N SPRT); non-trivial = "
+        "(empty, longer than N, out of range, bad g, random_order=False with finite-N SPRT); range stress for "
+        "estim(x)/bet(x) and the tests built on them (streams c13:*): long runs of 0 / of u in populations of "
+        "size n..n+2 (the fixed alternative becomes impossible, the null mean leaves [0,u]), margins "
+        "u = 1 + 2^-a down to a = 40, error rates 0..1/2, eta within 2^-30 of t or u, t within 2^-50 of u, "
+        "c in [2^-30,10], d in [2^-20,10^6], f in [0,100], minsd in [2^-40,10], aGRAPA c_0 in [0,1], "
+        "c_max in [c_0,1], growth in [0,10^6], bets in [0,1/u]; non-trivial = "
         "status ok, length >= 2 and the history is not constantly 1; distinct = distinct canonical input")
 EXHAUSTIVE = {"quick": False, "thorough": False}
 
@@ -141,6 +150,10 @@ def fragile(case, ir, mr):
         key = "hist" if case["op"] == "test" else ("v" if case["op"] in ("estim", "bet") else None)
         if key and len(ir.get(key, [])) == len(mr.get(key, [])):
             return True
+    if case["op"] == "bet" and fragile_bet(case):
+        return True
+    if case["op"] == "test" and fragile_cancel(case, mr):
+        return True
     init = case["init"]
     if case["op"] in ("estim", "bet"):
         # a null mean / t_adj within rounding distance of 0 or u flips np.minimum(c / t_adj, .) and the clips
@@ -181,6 +194,8 @@ def fragile(case, ir, mr):
         if r in ("inf", "-inf", "nan"):
             continue
         a = abs(F(r))
+        if a == 0 and not exact:
+            return True                      # an exactly vanishing product is float noise (not 0) in the code
         if a != 0 and abs(a * (1 - F(1, 10 ** 5)) - atol) <= F(1, 10 ** 6) * atol:
             return True
         if a != 0 and a < F(1, 10 ** 300):
@@ -189,6 +204,39 @@ def fragile(case, ir, mr):
     for h in [mr.get("p")] + list(mr.get("hist", [])):
         if h not in ("inf", "-inf", "nan", None) and F(h) != 0 and abs(F(h)) < F(1, 10 ** 290):
             return True
+    return False
+
+
+def fragile_bet(case):
+    """aGRAPA divides by the adjusted null mean: `c / t_adj` jumps from +inf to -inf at t_adj = 0, so a float
+    N*t - S that rounds to the other side of 0 than the exact value changes the bet from `raw` to 0"""
+    init = case["init"]
+    if init.get("bet") != "agrapa" or init["N"] is None or not case["x"]:
+        return False
+    exact = exact_inputs(case)
+    for m in null_means(init["N"], F(init["t"]), [F(v) for v in case["x"]][:init["N"]]):
+        if (m != 0 and abs(m) < F(1, 10 ** 9)) or (m == 0 and not exact):
+            return True
+    return False
+
+
+def fragile_cancel(case, mr):
+    """ALPHA factor at an observation x_j ~ 0 is (u - eta_j)/(u - mu_j): when eta_j is the float nearest to
+    u*(1-eps) (the default alternative) the code's u - eta_j carries a relative error of up to 1/3 (the exact model
+    does not round).  Only visible when a later p-value is not 1."""
+    init = case["init"]
+    if (init.get("test") or "alpha_mart") != "alpha_mart":
+        return False
+    u = F(init["u_now"] if init.get("u_now") is not None else init["u"])
+    est = impl_call(lambda: bc(make_nm(init).estim(xs(case)), len(case["x"])))
+    if not isinstance(est, list):
+        return False
+    uf = float(u)
+    hist = mr.get("hist", [])
+    for j, (e, xv) in enumerate(zip(est, case["x"])):
+        if 0 < uf - e < 1e-7 * uf and abs(F(xv)) < F(1, 1000) * u:
+            if any(h != "1" for h in hist[j:]):
+                return True
     return False
 
 
@@ -401,16 +449,146 @@ def corpus():
     ]
 
 
+# ---------------------------------------------------------------------------------------------
+# range stress for the shipped estimators and bets (property C13)
+
+def pow2(a):
+    return F(1, 2 ** a)
+
+
+def short(q, spare=10):
+    """q is a dyadic rational whose multiples by a population size and sums of <= 40 terms are exact in
+    binary64 (so that the sign of N*t - S and the 0/0 site of aGRAPA are decided identically by the floats
+    and by the exact model)"""
+    q = F(q)
+    d = q.denominator
+    return d & (d - 1) == 0 and abs(q.numerator).bit_length() + spare <= 53
+
+
+def range_x(rng, n, u, t, stream, t_ok):
+    g = lambda: grid_val(rng, u)
+    if stream == "zero-run":           # the fixed alternative becomes impossible (eta_j > u), mu_j grows to u and beyond
+        k = rng.randint(n // 2, n)
+        return [F(0)] * k + [rng.choice([u, u, u / 2, g()]) for _ in range(n - k)]
+    if stream == "u-run":              # eta_j and mu_j fall to 0 and below
+        k = rng.randint(n // 2, n)
+        return [u] * k + [rng.choice([F(0), F(0), u / 2, g()]) for _ in range(n - k)]
+    if stream == "coin":
+        return [rng.choice([F(0), u]) for _ in range(n)]
+    if stream == "const":
+        c = g()
+        return [c] * n
+    if stream == "t-run" and t_ok:     # sample mean equals the null mean with zero variance (aGRAPA 0/0), then anything
+        k = rng.randint(1, n)
+        return [t] * k + [g() for _ in range(n - k)]
+    return [g() for _ in range(n)]
+
+
+def range_p2(rng, u):
+    """assumed rate of two-vote overstatements.  eta = (1-u(1-p2))/(2-2u) + u(1-p2) - 1/2 is computed by the code
+    with an absolute error of about 2^-52/(u-1): keep the exact value either far outside [0,u] (it is clipped),
+    or computed without rounding (dyadic p2 with few bits), or the margin large enough for the 1e-9 comparison"""
+    delta = u - 1
+    if delta <= 0:
+        return rng.choice([F(0), F(1, 10 ** 4), F(1, 2)])
+    big = [F(1, 10 ** 4), F(1, 1000), F(1, 100), F(1, 10), F(1, 4), F(1, 2)]
+    opts = [F(0), F(0)] + [p for p in big if p >= 16 * delta or delta >= pow2(18)]
+    a = delta.denominator.bit_length() - 1 if delta.numerator == 1 and short(delta, 0) else None
+    if a is not None and a <= 24:
+        # interior values eta in (0,u): p2 < 2*delta, exact in binary64 when a + k <= 52
+        opts += [pow2(k) for k in range(max(1, a - 1), 52 - a + 1, 3)]
+    return rng.choice(opts)
+
+
+def gen_range_case(rng, tier, op):
+    """op in {"estim", "bet", "test"}: configurations at the edges of the documented parameter ranges.
+    `estim` / `bet` cases take every parameter to its extremes (estimators are continuous in their inputs; for bets
+    t, u and x are dyadic with few bits so that the sign of N*t - S and the 0/0 site are decided exactly).
+    `test` cases run the whole martingale on the same samples with parameters kept where the factors are computed
+    without catastrophic cancellation (the exact model does not round): u - eta_j and 1 - lambda_j*mu_j are either
+    exactly 0 or not smaller than about 1e-4."""
+    mild = op == "test"
+    nmax = 12 if tier == "quick" else 40
+    n = rng.choice([1, 2, 3, 4, 5, 6, 8, 10, nmax, nmax])
+    side = rng.choice(["estim", "bet"]) if op == "test" else op
+    u = rng.choice([F(1), F(1), F(3, 2), F(2), F(17, 16), F(5, 4)] + [1 + pow2(a) for a in (1, 4, 10, 20, 30, 40, 40)])
+    estim = bet = None
+    if side == "estim":
+        estim = rng.choice(["fixed_alternative_mean", "shrink_trunc", "shrink_trunc", "optimal_comparison", None])
+        if mild and estim == "shrink_trunc":
+            estim = rng.choice(["fixed_alternative_mean", "optimal_comparison", None])
+        if estim == "optimal_comparison":
+            u = rng.choice([F(1)] + [1 + pow2(a) for a in (1, 2, 4, 10, 14, 20, 24, 30, 40, 40)] * 2 + [F(3, 2), F(2)])
+    else:
+        bet = rng.choice(["agrapa", "agrapa", "fixed_bet", None])
+    t = rng.choice([F(1, 2)] * 4 + [F(1, 4), F(3, 8), F(3, 4), u / 2, u / 2])
+    N = rng.choice([None, n, n, n, n + 1, n + 2, 2 * n, 10 * n])
+    if op == "estim" and estim != "optimal_comparison" and rng.chance(0.12):
+        # null mean next to the upper bound (estimators are continuous in t; bets and tests are not exercised here)
+        t = u * (1 - pow2(rng.choice([2, 10, 30, 45, 50])))
+    if not (0 < t < u):
+        t = u / 2
+    name = rng.choice(["zero-run", "zero-run", "u-run", "coin", "const", "grid", "t-run"])
+    x = range_x(rng, n, u, t, name, short(t) or N is None)
+    kw = {}
+    if side == "estim":
+        if estim in (None, "fixed_alternative_mean", "shrink_trunc") and (rng.chance(0.8) or (estim is None and mild)):
+            etas = [t + (u - t) / 8, (t + u) / 2, u - (u - t) / 8]
+            if not mild:
+                etas += [t + (u - t) * pow2(30), u - (u - t) * pow2(30)]
+            kw["eta"] = rng.choice(etas)
+        if estim == "shrink_trunc":
+            if rng.chance(0.8):
+                # c/sqrt(d+j-1) stays above 1e-12, far above the spacing of the floats near u <= 2
+                kw["c"] = rng.choice([pow2(30), pow2(10), F(1, 8), F(1, 2), max((u - t) / 2, pow2(30)), F(10)])
+            if rng.chance(0.8):
+                kw["d"] = rng.choice([pow2(20), F(1), F(10), F(100), F(10 ** 6)])
+            if rng.chance(0.7):
+                kw["f"] = rng.choice([F(0), pow2(20), F(1, 100), F(1), F(100)])
+            if rng.chance(0.7):
+                kw["minsd"] = rng.choice([pow2(40), F(1, 10 ** 6), F(1, 100), F(1, 4), F(10)])
+        if estim == "optimal_comparison" and rng.chance(0.85):
+            kw["rate_error_2"] = range_p2(rng, u)
+    else:
+        if bet in (None, "fixed_bet"):
+            if bet == "fixed_bet" or rng.chance(0.7):
+                lams = [F(0), F(1, 4), F(1, 2), F(3, 4), F(1)] if mild else [F(0), pow2(30), F(1, 4), F(1, 2), F(1), F(1)]
+                kw["lam"] = rng.choice(lams) / u
+        else:
+            if rng.chance(0.7):
+                kw["lam"] = rng.choice([F(0), F(1, 2)] if mild else [F(0), pow2(30), F(1, 2), F(1)]) / u
+            c0 = None
+            if rng.chance(0.7) or mild:
+                c0s = [F(1, 2), F(3, 4), F(9, 10)] if mild else [F(0), pow2(10), F(1, 2), F(3, 4), F(9, 10), 1 - EPS, F(1)]
+                c0 = kw["c_grapa_0"] = rng.choice(c0s)
+            if rng.chance(0.7) or mild:
+                lo = c0 if c0 is not None else 1 - EPS
+                cms = [F(9, 10), F(99, 100)] if mild else [F(1, 2), F(9, 10), F(99, 100), 1 - EPS, F(1)]
+                kw["c_grapa_max"] = rng.choice([c for c in cms if c >= lo])
+            if rng.chance(0.6):
+                kw["c_grapa_grow"] = rng.choice([F(0), pow2(10), F(1, 10), F(1), F(100), F(10 ** 6)])
+    test = "alpha_mart" if side == "estim" else "betting_mart"
+    init = {"test": test, "estim": estim, "bet": bet, "u": S(u), "N": N, "t": S(t), "ro": rng.chance(0.8),
+            "kw": {k: S(v) for k, v in kw.items()}, "u_now": None}
+    return {"op": op, "init": init, "x": [S(v) for v in x], "stream": f"c13:{estim or bet or 'default'}:{name}"}
+
+
 def gen(rng, n, tier):
     k = 0
     while k < n:
         r = rng.random()
-        if r < 0.72:
+        if r < 0.60:
             yield gen_case(rng, tier, "test")
-        elif r < 0.84:
+        elif r < 0.66:
+            yield gen_range_case(rng, tier, "test")
+        elif r < 0.72:
             yield gen_case(rng, tier, "estim", force_test="alpha_mart")
-        elif r < 0.94:
+        elif r < 0.82:
+            yield gen_range_case(rng, tier, "estim")
+        elif r < 0.87:
             yield gen_case(rng, tier, "bet", force_test="betting_mart")
+        elif r < 0.95:
+            yield gen_range_case(rng, tier, "bet")
         else:
             c = gen_case(rng, tier, "conv", force_test="betting_mart")
             u = F(c["init"]["u"])
@@ -636,6 +814,9 @@ def oracle_c13(case, ir):
                 return {"what": f"{b}: lambda_{j + 1} = {l!r} outside [0, 1/mu = {1 / float(m)}]"}
         return None
     if case["op"] == "test" and ir.get("st") == "ok" and valid_for_wellformed(case):
+        if (init.get("test") == "betting_mart" and init.get("bet") in (None, "fixed_bet")
+                and not (0 <= kw.get("lam", F(1, 2)) <= 1 / u)):
+            return None      # a fixed bet above 1/u (u possibly overwritten after construction) is outside the guard
         for j, v in enumerate(ir["hist"]):
             if v < 0:
                 return {"what": f"negative history entry {v!r} at {j}: some factor of the statistic was negative"}
